@@ -560,102 +560,101 @@ example : (match runApp { bypassCrc := true } [exBuf] with
         ∧ accepts .notStarted (esTrace 3 c) = some .open_)
     | .panic _ => false) = true := by decide +kernel
 
-/-- the same split over three `push` calls at arbitrary (unaligned) cuts gives the same table tags;
-and the theorems apply to it -/
-example : ∃ t c, runApp { bypassCrc := true } [exBuf] = .ok (t, c) ∧ TagInv (t, c)
-    ∧ (∀ τ, ∃ s, accepts .notStarted (esTrace τ c) = some s) := by
-  obtain ⟨⟨t, c⟩, h, _⟩ := ok_of_check (runApp { bypassCrc := true } [exBuf]) (fun _ => true)
+/-- the state after PAT and PMT (`exState = runApp … [exPat ++ exPmt2]`), evaluated once: PAT handler,
+PMT handler, PES filters tagged 2 and 3 on PIDs 0x21 and 0x22 -/
+theorem exState_eq : exState = .ok (exTab0, exCtx0) := by
+  obtain ⟨a, h1, h2⟩ := ok_of_check exState (fun tc => decide (tc = (exTab0, exCtx0)))
     (by decide +kernel)
-  refine ⟨t, c, h, tagInv_runApp _ _ t c h, fun τ => ?_⟩
-  obtain ⟨s, hs, _⟩ := es_consumer_well_nested _ _ t c h τ
-  exact ⟨s, hs⟩
+  rw [h1, of_decide_eq_true h2]
+
+/-- … it satisfies the invariants, as instances of the theorems -/
+theorem exState_inv : TagInv (exTab0, exCtx0) ∧ NestInv (exTab0, exCtx0) :=
+  ⟨tagInv_runApp _ _ _ _ exState_eq,
+   (pushAll_nest _ (App.init _) 0 _ (init_tagInv _) (init_nest _) exState_eq).2⟩
+
+example : tagsIn exTab0 = [2, 3] ∧ exTab0.get 0x21 = some (.pes 2 {}) ∧ exTab0.get 0x22 = some (.pes 3 {}) := by
+  decide +kernel
 
 /-- the hypotheses of `pes_trace_is_filter_run_kept` are satisfiable: from the state after PAT and
-PMT (`exState`), PID 0x21 holds the PES filter tagged 2, and over the interleaving `exPks` it is
-kept; the theorem then gives its view.  Likewise PID 0x22 / tag 3. -/
-example : ∃ t c t' c', exState = .ok (t, c) ∧ pushSpec App.sem (t, c) exPks = .ok (t', c') ∧
+PMT, PID 0x21 holds the PES filter tagged 2 and over the interleaving `exPks` it is kept; the
+theorem then gives its view.  Likewise PID 0x22 / tag 3. -/
+example : ∃ t' c', pushSpec App.sem (exTab0, exCtx0) exPks = .ok (t', c') ∧
     (∃ f' evss outs, PesFilter.run {} ((own 0x21 exPks).map (·.bytes)) = .ok (f', evss) ∧
-      esAll false 2 (own 0x21 exPks) evss = .ok outs ∧ proj 2 c' = proj 2 c ++ outs.flatten ∧
+      esAll false 2 (own 0x21 exPks) evss = .ok outs ∧ proj 2 c' = proj 2 exCtx0 ++ outs.flatten ∧
       t'.get 0x21 = some (.pes 2 f')) ∧
     (∃ f' evss outs, PesFilter.run {} ((own 0x22 exPks).map (·.bytes)) = .ok (f', evss) ∧
-      esAll false 3 (own 0x22 exPks) evss = .ok outs ∧ proj 3 c' = proj 3 c ++ outs.flatten ∧
+      esAll false 3 (own 0x22 exPks) evss = .ok outs ∧ proj 3 c' = proj 3 exCtx0 ++ outs.flatten ∧
       t'.get 0x22 = some (.pes 3 f')) := by
-  obtain ⟨⟨t, c⟩, h, hb⟩ := ok_of_check exState
-    (fun tc => Keeps 0x21 2 tc exPks && Keeps 0x22 3 tc exPks
-      && (match tc.1.get 0x21 with | some (.pes 2 f) => decide (f = {}) | _ => false)
-      && (match tc.1.get 0x22 with | some (.pes 3 f) => decide (f = {}) | _ => false)
-      && !tc.2.cfg.touch
-      && (pushSpec App.sem tc exPks).isOk
-      && exPks.all (fun pk => pk.bytes.length == 188))
-    (by decide +kernel)
-  simp only [Bool.and_eq_true, Bool.not_eq_true', List.all_eq_true, beq_iff_eq] at hb
-  obtain ⟨⟨⟨⟨⟨⟨k1, k2⟩, g1⟩, g2⟩, htouch⟩, hok⟩, hlen⟩ := hb
-  have hi : TagInv (t, c) := tagInv_runApp _ _ t c h
-  have hg1 : t.get 0x21 = some (.pes 2 {}) := by
-    split at g1
-    · rename_i f hf; rw [hf]; have : f = {} := by simpa using g1
-      rw [this]
-    · cases g1
-  have hg2 : t.get 0x22 = some (.pes 3 {}) := by
-    split at g2
-    · rename_i f hf; rw [hf]; have : f = {} := by simpa using g2
-      rw [this]
-    · cases g2
-  cases hrun : pushSpec App.sem (t, c) exPks with
+  have hK : (Keeps 0x21 2 (exTab0, exCtx0) exPks && Keeps 0x22 3 (exTab0, exCtx0) exPks
+      && (pushSpec App.sem (exTab0, exCtx0) exPks).isOk
+      && exPks.all (fun pk => pk.bytes.length == 188)) = true := by decide +kernel
+  simp only [Bool.and_eq_true, List.all_eq_true, beq_iff_eq] at hK
+  obtain ⟨⟨⟨k1, k2⟩, hok⟩, hlen⟩ := hK
+  cases hrun : pushSpec App.sem (exTab0, exCtx0) exPks with
   | panic s => rw [hrun] at hok; cases hok
   | ok r =>
     obtain ⟨t', c'⟩ := r
-    have htouch' : c.cfg.touch = false := htouch
-    obtain ⟨f1, e1, o1, a1, a2, a3, a4, _⟩ := pes_trace_is_filter_run_kept 0x21 2 exPks t c {} t' c' hi hg1
-      (fun pk hm _ _ => hlen pk hm) k1 hrun
-    obtain ⟨f2, e2, o2, b1, b2, b3, b4, _⟩ := pes_trace_is_filter_run_kept 0x22 3 exPks t c {} t' c' hi hg2
-      (fun pk hm _ _ => hlen pk hm) k2 hrun
-    rw [htouch'] at a2 b2
-    exact ⟨t, c, t', c', h, hrun, ⟨f1, e1, o1, a1, a2, a3, a4⟩, ⟨f2, e2, o2, b1, b2, b3, b4⟩⟩
+    obtain ⟨f1, e1, o1, a1, a2, a3, a4, _⟩ := pes_trace_is_filter_run_kept 0x21 2 exPks exTab0 exCtx0 {} t' c'
+      exState_inv.1 (by decide +kernel) (fun pk hm _ _ => hlen pk hm) k1 hrun
+    obtain ⟨f2, e2, o2, b1, b2, b3, b4, _⟩ := pes_trace_is_filter_run_kept 0x22 3 exPks exTab0 exCtx0 {} t' c'
+      exState_inv.1 (by decide +kernel) (fun pk hm _ _ => hlen pk hm) k2 hrun
+    exact ⟨t', c', rfl, ⟨f1, e1, o1, a1, a2, a3, a4⟩, ⟨f2, e2, o2, b1, b2, b3, b4⟩⟩
 
-/-- INTERLEAVING INDEPENDENCE, by evaluation: from `exState`, consumer 2 (PID 0x21) observes the
-same events whether the PID-0x22 packets are interleaved (`exPks`) or absent altogether -/
-example : (match exState with
-    | .ok tc =>
-      (match pushSpec App.sem tc exPks, pushSpec App.sem tc (exPks.filter (fun pk => pk.pid == 0x21)) with
-       | .ok (_, c1), .ok (_, c2) => decide (proj 2 c1 = proj 2 c2 ∧ proj 3 c2 = [] ∧ proj 3 c1 ≠ [])
-       | _, _ => false)
+/-- … and concretely (evaluated): the two views, and the callbacks `PesFilter.run` yields on each
+PID's own packets alone -/
+example : (match pushSpec App.sem (exTab0, exCtx0) exPks with
+    | .ok (_, c) => decide (
+        proj 2 c = [.esStart 2, .esBegin 2 (exBi 389), .esCont 2 944 184, .esEnd 2, .esBegin 2 (exBi 1141)]
+        ∧ proj 3 c = [.esStart 3, .esBegin 3 (exBi 577), .esCont 3 840 100])
     | .panic _ => false) = true := by decide +kernel
+open Ts.Lemmas.C08 in
+example : PesFilter.run {} ((own 0x21 exPks).map (·.bytes)) =
+      .ok (⟨some 2, .started⟩, [[.start, .beginPkt 4 184], [.cont 4 184], [.endPkt, .beginPkt 4 184]])
+    ∧ PesFilter.run {} ((own 0x22 exPks).map (·.bytes)) =
+      .ok (⟨some 8, .started⟩, [[.start, .beginPkt 4 184], [.cont 88 100]]) := by decide +kernel
+
+/-- INTERLEAVING INDEPENDENCE, by evaluation: consumer 2 (PID 0x21) observes the same events whether
+the PID-0x22 packets are interleaved (`exPks`) or absent altogether -/
+example : (match pushSpec App.sem (exTab0, exCtx0) exPks,
+      pushSpec App.sem (exTab0, exCtx0) (exPks.filter (fun pk => pk.pid == 0x21)) with
+    | .ok (_, c1), .ok (_, c2) => decide (proj 2 c1 = proj 2 c2 ∧ proj 3 c2 = [] ∧ proj 3 c1 ≠ [])
+    | _, _ => false) = true := by decide +kernel
 
 /-- REPLACEMENT, by evaluation: a second PMT version re-announces both streams, so both PES filters
 are replaced by fresh instances (tags 4 and 5); tags 2 and 3 leave the table; the next packet of
 PID 0x21 is attributed to tag 4 — starting with ITS OWN `start_stream` — and nothing is added to
-what consumer 2 observed -/
-example : (match runApp { bypassCrc := true } [exBuf], runApp { bypassCrc := true } [exBuf, exPmt2v1 ++ exA3] with
+what consumer 2 observed.  `Keeps` fails for this run, as it must. -/
+example : (match pushSpec App.sem (exTab0, exCtx0) exPks,
+      pushSpec App.sem (exTab0, exCtx0) (exPks ++ [⟨exPmt2v1, 1316, 0x20, false, false⟩, ⟨exA3, 1504, 0x21, false, false⟩]) with
     | .ok (_, c), .ok (t', c') => decide (tagsIn t' = [4, 5] ∧ c'.nextTag = 6
         ∧ proj 2 c' = proj 2 c ∧ proj 3 c' = proj 3 c
         ∧ proj 4 c' = [.esStart 4, .esBegin 4 (exBi (1316 + 188 + 13))]
-        ∧ proj 5 c' = [])
+        ∧ proj 5 c' = []
+        ∧ Keeps 0x21 2 (exTab0, exCtx0)
+            (exPks ++ [⟨exPmt2v1, 1316, 0x20, false, false⟩, ⟨exA3, 1504, 0x21, false, false⟩]) = false)
     | _, _ => false) = true := by decide +kernel
 
-/-- … as `tag_never_reissued` says -/
-example : ∃ t c t' c', runApp { bypassCrc := true } [exBuf, exPmt2v1] = .ok (t, c)
-    ∧ pushSpec App.sem (t, c) [⟨exA3, 1504, 0x21, false, false⟩] = .ok (t', c')
-    ∧ 2 ∉ tagsIn t' ∧ proj 2 c' = proj 2 c := by
-  obtain ⟨⟨t, c⟩, h, hb⟩ := ok_of_check (runApp { bypassCrc := true } [exBuf, exPmt2v1])
-    (fun tc => decide (2 < tc.2.nextTag) && decide (2 ∉ tagsIn tc.1)
-      && (pushSpec App.sem tc [⟨exA3, 1504, 0x21, false, false⟩]).isOk)
-    (by decide +kernel)
+/-- … an instance of `tag_never_reissued`: once tag 2 has left the table it stays out and silent -/
+example : ∃ t c, pushSpec App.sem (exTab0, exCtx0) [⟨exPmt2v1, 1316, 0x20, false, false⟩] = .ok (t, c)
+    ∧ 2 ∉ tagsIn t ∧ ∀ pks t' c', pushSpec App.sem (t, c) pks = .ok (t', c') →
+        2 ∉ tagsIn t' ∧ proj 2 c' = proj 2 c := by
+  obtain ⟨⟨t, c⟩, h, hb⟩ := ok_of_check (pushSpec App.sem (exTab0, exCtx0) [⟨exPmt2v1, 1316, 0x20, false, false⟩])
+    (fun tc => decide (2 < tc.2.nextTag) && decide (2 ∉ tagsIn tc.1)) (by decide +kernel)
   simp only [Bool.and_eq_true, decide_eq_true_eq] at hb
-  obtain ⟨⟨h1, h2⟩, hok⟩ := hb
-  cases hrun : pushSpec App.sem (t, c) [⟨exA3, 1504, 0x21, false, false⟩] with
-  | panic s => rw [hrun] at hok; cases hok
-  | ok r =>
-    obtain ⟨t', c'⟩ := r
-    obtain ⟨a, b⟩ := tag_never_reissued 2 _ t c t' c' (tagInv_runApp _ _ t c h) h1 h2 hrun
-    exact ⟨t, c, t', c', h, hrun, a, b⟩
+  obtain ⟨h1, h2⟩ := hb
+  refine ⟨t, c, h, h2, fun pks t' c' hrun => ?_⟩
+  exact tag_never_reissued 2 pks t c t' c' (tagInv_pushSpec _ _ _ exState_inv.1 h).1 h1 h2 hrun
 
-/-- hostile input: the unit-start flag set on garbage, a continuity jump, a truncated header; the
-per-consumer trace is still a legal protocol run (evaluated; and an instance of the theorem) -/
-example : (match runApp { bypassCrc := true } [exBuf ++ exHostile] with
-    | .ok (_, c) => decide (esTrace 2 c =
-          [.start, .beginPkt 0 0, .cont 0 0, .endPkt, .beginPkt 0 0, .ccErr, .beginPkt 0 0, .endPkt]
-        ∧ accepts .notStarted (esTrace 2 c) = some .idle)
+/-- hostile input on PID 0x21 after the interleaving: a continuity jump, a valid PES start, a unit
+start on garbage, a stray continuation; the per-consumer trace is still a legal protocol run
+(evaluated; it is an instance of `nestInv_pushSpec`) -/
+example : (match frame (exEs ++ exHostile) 376 with
+    | .ok pks =>
+      (match pushSpec App.sem (exTab0, exCtx0) pks with
+       | .ok (_, c) => decide (esTrace 2 c =
+            [.start, .beginPkt 0 0, .cont 0 0, .endPkt, .beginPkt 0 0, .ccErr, .beginPkt 0 0, .endPkt]
+          ∧ accepts .notStarted (esTrace 2 c) = some .idle)
+       | .panic _ => false)
     | .panic _ => false) = true := by decide +kernel
 
 end Ts.Props.C02Trace
